@@ -81,8 +81,10 @@ CHECKS = {
              "monotonicity in the size; CBOR head lengths monotone. Tied to /repo by differential runs on rational grids. "
              "Sufficiency and tightness of built transactions are evaluated on the final signed bytes with Fractions.",
         ref="3 C07", technique="Lean 4 proof (fee formulas over exact rationals) + model/implementation correspondence; built-transaction sufficiency by direct evaluation",
-        note=TB + "PARTIAL: the two-pass estimate inside build() is not modelled; sufficiency / tightness of built "
-                  "transactions are decided by evaluation of the implementation against the exact ledger minimum "
+        note=TB + "PARTIAL: the fee estimator (size of the fake transaction) is not modelled; the builder's final fee loop is "
+                  "(fee_loop_post / _terminates / _sufficient, over an abstract estimator, tied to the recorded estimates of "
+                  "every build); sufficiency / tightness of built transactions are decided by evaluation of the "
+                  "implementation against the exact ledger minimum "
                   "(defect KF-C07-width-boundary was found this way and repaired); float-valued protocol parameters are not exercised."),
     "C08": dict(
         text="Lean theorems over the models of TransactionOutput serialization, min_lovelace_post_alonzo, the negative-"
